@@ -2,6 +2,7 @@
 //! (`lsmdrv`, line protocol). See /verif/DESIGN.md section 5.
 mod ia;
 mod ia2;
+mod ia4;
 mod flip;
 mod fs;
 mod ib;
@@ -73,12 +74,19 @@ fn main() {
             if all || which == "filters" {
                 ia2::filters(seed, cases, &mut st, &mut drv);
             }
+            if all || which == "hwm" {
+                ia4::hwm(seed, cases, &mut st, &mut drv);
+            }
             st.add("driver.requests", drv.requests);
         }
         "id" => {
             let inflight = args.iter().any(|a| a == "--inflight");
             let blob = arg_u64(&args, "--blob", 0) == 1;
-            id::campaign(seed, cases, inflight, blob, &mut st);
+            if args.iter().any(|a| a == "--stress") {
+                id::stress(seed, cases, blob, &mut st);
+            } else {
+                id::campaign(seed, cases, inflight, blob, &mut st);
+            }
         }
         "flip" => {
             let thorough = args.iter().any(|a| a == "--thorough");
